@@ -99,9 +99,10 @@ class Row(Vector):
 		else:
 			# Check uniformity of column types
 			col_dtypes = [col._dtype for col in table._underlying]
-			unique_kinds = {dt.kind for dt in col_dtypes}
+			# empty (zero-row) columns may have no dtype yet
+			unique_kinds = {dt.kind if dt is not None else None for dt in col_dtypes}
 			
-			if len(unique_kinds) == 1:
+			if len(unique_kinds) == 1 and None not in unique_kinds:
 				# Homogeneous (Matrix-like)
 				kind = unique_kinds.pop()
 				# If ANY column is nullable, the row vector must be nullable
